@@ -274,7 +274,7 @@ func a1Writer(p *Prog, o *obls, c *PktClosure, key string) {
 				if fe == nil {
 					continue
 				}
-				if p.backwardReaches(errV, func(x ssa.Value) bool { return x == ssa.Value(fe) }) || p.nilnessAt(fe, b) == -1 {
+				if errCovers(p, errV, fe, b, map[ssa.Value]bool{}) {
 					ok = true
 				}
 			}
@@ -324,6 +324,115 @@ func argsString(a []ssa.Value) string {
 		s = append(s, valueString(x))
 	}
 	return strings.Join(s, ", ")
+}
+
+// errCovers: whenever the forward's error fe is non-nil, the value v (evaluated at the end of block ctx) carries it:
+// v is fe, or fe is known nil in ctx, or v is a φ all of whose incoming values cover fe on their edges, or v is built
+// from a covering value (errors.Join / append of an error list / wrapping call).
+func errCovers(p *Prog, v ssa.Value, fe ssa.Value, ctx *ssa.BasicBlock, seen map[ssa.Value]bool) bool {
+	if v == nil {
+		return false
+	}
+	if p.origin(v) == fe || p.nilnessAt(fe, ctx) == -1 {
+		return true
+	}
+	if seen[v] {
+		return true // a cycle through loop φs adds nothing new
+	}
+	seen[v] = true
+	switch x := v.(type) {
+	case *ssa.Phi:
+		for i, e := range x.Edges {
+			pred := x.Block().Preds[i]
+			if nilOnEdge(p, fe, pred, x.Block()) {
+				continue
+			}
+			if !errCovers(p, e, fe, pred, seen) {
+				return false
+			}
+		}
+		return true
+	case *ssa.Call:
+		if b := builtinName(&x.Call); b == "append" {
+			for _, a := range x.Call.Args {
+				if errCovers(p, a, fe, x.Block(), seen) {
+					return true
+				}
+			}
+			return false
+		}
+		if isLoggerCall(&x.Call) {
+			return false
+		}
+		for _, a := range x.Call.Args {
+			if (isErrorType(a.Type()) || isErrSlice(a.Type())) && errCovers(p, a, fe, x.Block(), seen) {
+				return true
+			}
+		}
+		return false
+	case *ssa.Slice:
+		return errCovers(p, x.X, fe, ctx, seen)
+	case *ssa.Alloc:
+		for _, st := range p.storesInto(x) {
+			if errCovers(p, st.Val, fe, st.Block(), seen) {
+				return true
+			}
+		}
+		return false
+	case *ssa.UnOp:
+		if x.Op == token.MUL {
+			if al, ok := cellAddr(x.X).(*ssa.Alloc); ok {
+				sts := p.storesToCell(al)
+				if len(sts) == 0 {
+					return false
+				}
+				for _, st := range sts {
+					if !errCovers(p, st.Val, fe, st.Block(), seen) {
+						return false
+					}
+				}
+				return true
+			}
+		}
+	case *ssa.MakeInterface:
+		return errCovers(p, x.X, fe, ctx, seen)
+	case *ssa.ChangeType:
+		return errCovers(p, x.X, fe, ctx, seen)
+	case *ssa.Extract:
+		return errCovers(p, x.Tuple, fe, ctx, seen)
+	}
+	return false
+}
+
+// nilOnEdge: the branch from pred to succ is only taken when fe is nil (pred tests fe against nil itself).
+func nilOnEdge(p *Prog, fe ssa.Value, pred, succ *ssa.BasicBlock) bool {
+	c := ifCond(pred)
+	if c == nil || pred.Succs[0] == pred.Succs[1] {
+		return false
+	}
+	f := normFact(condFact{c, pred.Succs[0] == succ})
+	bo, ok := f.cond.(*ssa.BinOp)
+	if !ok || (bo.Op != token.NEQ && bo.Op != token.EQL) {
+		return false
+	}
+	var other ssa.Value
+	if isNilConst(bo.Y) {
+		other = bo.X
+	} else if isNilConst(bo.X) {
+		other = bo.Y
+	} else {
+		return false
+	}
+	if p.origin(other) != fe {
+		return false
+	}
+	isNil := (bo.Op == token.EQL) == f.truth
+	return isNil
+}
+
+func isErrSlice(t types.Type) bool {
+	s, ok := t.Underlying().(*types.Slice)
+	return ok && isErrorType(s.Elem())
 }
 
 // errExtract finds the Extract of the error result (last tuple element) of a call.
@@ -490,7 +599,7 @@ func a2Reader(p *Prog, o *obls, c *PktClosure, key string) {
 						}
 					}
 				default: // failure branch or unknown: the read's error must be returned
-					if !p.backwardReaches(errV, func(x ssa.Value) bool { return x == ssa.Value(fe) }) {
+					if !errCovers(p, errV, fe, b, map[ssa.Value]bool{}) {
 						problems = append(problems, fmt.Sprintf("error swallowed: the return at %s does not carry the wrapped reader's error", rpos))
 					}
 					if p.nilnessAt(fe, b) == 0 && (n0 == nil || p.origin(nV) != ssa.Value(n0)) {
